@@ -426,17 +426,14 @@ func (r *Reader) FindBlockForKey(key []byte) ([]BlockLocator, error) {
 	var blocks []BlockLocator
 	seenBlocks := make(map[uint64]bool)
 
-	// First try binary search for efficiency - find the first block
-	// where the first key is >= our target key
+	// The index holds the first key of each block, so the block containing
+	// the key is the one BEFORE the first index entry > key. Seeking the
+	// index to the first entry >= key would skip that block; consider every
+	// block (the per-block bloom filters keep this cheap).
 	indexIter := r.indexBlock.Iterator()
-	indexIter.Seek(key)
+	indexIter.SeekToFirst()
 
-	// If the seek fails, start from beginning to check all blocks
-	if !indexIter.Valid() {
-		indexIter.SeekToFirst()
-	}
-
-	// Process all potential blocks (starting from the one found by Seek)
+	// Process all potential blocks
 	for ; indexIter.Valid(); indexIter.Next() {
 		locator, err := ParseBlockLocator(indexIter.Key(), indexIter.Value())
 		if err != nil {
